@@ -32,11 +32,19 @@ theorem growth_strict (s : Stack) (x : Nat) (m : Mem) (hinv : s.Inv) :
 theorem pop_keeps_capacity (s : Stack) (m : Mem) (hinv : s.Inv) : (s.pop m).2.2.1.v.capacity = s.v.capacity :=
   (Arr.removeLast_spec s.v m hinv).2.2.2.1.1
 
-/-- pushing a list of elements one by one -/
+/-- pushing a list of elements one by one (`pushes_are_addAll`): at most `log2 (size + n) + 1` buffer
+allocations through the stack's triple when the growth function at least doubles the capacities
+below the final size, for every refusal schedule -/
 theorem pushes_realloc_log (s : Stack) (xs : List Nat) (m : Mem) (hinv : s.Inv)
-    (hd : ∀ c, 2 * c ≤ s.v.grow c) :
-    (s.v.addAll xs m).2.nalloc - m.nalloc ≤ Nat.log2 (s.size + xs.length) + 1 :=
+    (hd : ∀ c, c < s.size + xs.length → 2 * c ≤ s.v.grow c) :
+    Arr.allocs s.v.triple (s.v.addAll xs m).2 - Arr.allocs s.v.triple m ≤ Nat.log2 (s.size + xs.length) + 1 :=
   C20Array.appends_realloc_log s.v xs m hinv hd
+
+/-- every expansion factor `≥ 1 + 1/k`: at most `2k · (log2 (size + n) + 2)` -/
+theorem pushes_realloc_geometric (k : Nat) (hk : 1 ≤ k) (s : Stack) (xs : List Nat) (m : Mem) (hinv : s.Inv)
+    (hd : ∀ c, c < s.size + xs.length → c + c / k ≤ s.v.grow c) :
+    Arr.allocs s.v.triple (s.v.addAll xs m).2 - Arr.allocs s.v.triple m ≤ 2 * k * (Nat.log2 (s.size + xs.length) + 2) :=
+  C20Array.appends_realloc_geometric k hk s.v xs m hinv hd
 
 /-- `addAll` on the wrapped array is what repeated `cc_stack_push` does -/
 theorem pushes_are_addAll (s : Stack) (xs : List Nat) (m : Mem) :
@@ -48,5 +56,14 @@ theorem pushes_are_addAll (s : Stack) (xs : List Nat) (m : Mem) :
   | cons x xs ih =>
     simp only [List.foldl_cons, Arr.addAll]
     exact ih _ _
+
+/-! Non-vacuity: five pushes on a full stack of capacity 1 with the factor 2: capacities 1 → 2 → 4 → 8,
+three buffer allocations, `size ≤ capacity` throughout; two pops keep the capacity. -/
+example :
+    let s : Stack := { v := Arr.mk 1 1 [7] (fun c => 2 * c) .conf }
+    let r := s.run [SOp.push 1, SOp.push 2, SOp.push 3, SOp.push 4, SOp.push 5, SOp.pop, SOp.pop] {}
+    s.Inv ∧ (r.2.1.size, r.2.1.v.capacity, r.2.2.nalloc) = (4, 8, 3) ∧
+    (∀ c, c < s.size + 5 → 2 * c ≤ s.v.grow c) := by
+  refine ⟨by decide, by decide, fun c _ => Nat.le_refl _⟩
 
 end CC.Properties.C20Stack
